@@ -281,7 +281,12 @@ def strip_path(p):
 
 def scalar_equal(cv, kv):
     if isinstance(cv, R.Label):
-        return isinstance(kv, int) and kv == cv.intvalue
+        # an enumeration label: same integer, and where the schema names the member it is the same name
+        if not (isinstance(kv, int) and kv == cv.intvalue):
+            return False
+        return not isinstance(kv, K.EnumValue) or kv.label == str(cv)
+    if isinstance(kv, K.EnumValue) and kv.label is not None:
+        return False        # the schema names a member where construct returns a bare (unmapped) integer
     if isinstance(cv, bool):
         return kv in (0, 1, True, False) and bool(kv) == cv
     if isinstance(cv, float):
